@@ -5,6 +5,7 @@ package main
 
 import (
 	"encoding/hex"
+	"encoding/json"
 	"flag"
 	"fmt"
 	"strconv"
@@ -187,6 +188,14 @@ func HThrift(ctx erpc.CallCtx, arg *wire.TStruct) (*wire.TStruct, *erpc.Status) 
 	return r.(*wire.TStruct), nil
 }
 
+// HRaw replies with the request bytes as a JSON-labelled body (lets the harness choose the reply bytes exactly).
+func HRaw(ctx erpc.CallCtx, arg *[]byte) ([]byte, *erpc.Status) {
+	ctx.SetBodyCodec(codec.ID_JSON)
+	return append([]byte(nil), (*arg)...), nil
+}
+
+var replyBodies = []string{`{"tok":"a","pay":"b"}`, `{"tok":"a"}}`, `{"tok":"a"} x`, `{"tok":"a"}{"tok":"b"}`, `{"tok":"a"`, `{"tok":"a"}]`, ` {"tok":"a"} `, `{"tok":"a"}` + "\n\n", `nul`, `{"tok":"a"},`}
+
 // veto plugin: vetoes calls carrying metadata Veto=<code>;<msghex>;<causehex> after the body was read.
 type vetoPlugin struct{}
 
@@ -343,6 +352,7 @@ func main() {
 		for i, f := range []interface{}{HBytes, HPlain, HJson, HForm, HXml, HPb, HThrift} {
 			routes[kinds[i]] = srv.RouteCallFunc(f)
 		}
+		routes["raw-reply"] = srv.RouteCallFunc(HRaw)
 		var link *bed.Link
 		var err error
 		if t.ws {
@@ -368,7 +378,7 @@ func main() {
 			core.Add("reconnects", 1)
 		}
 		ks := kindsFor(t)
-		modes := []string{"status", "ok", "mismatch", "panic-string", "panic-error", "panic-status", "panic-nil", "unknown-route", "bad-body", "veto", "closed"}
+		modes := []string{"reply-bytes", "status", "ok", "mismatch", "panic-string", "panic-error", "panic-status", "panic-nil", "unknown-route", "bad-body", "veto", "closed"}
 		for _, mode := range modes {
 			for k := 0; k < perMode; k++ {
 				caseNo++
@@ -384,6 +394,19 @@ func main() {
 				var body interface{}
 				predictedDecodable := true
 				switch mode {
+				case "reply-bytes":
+					// the reply body is chosen byte for byte; whether it is a JSON document is decided by encoding/json
+					// itself (independent of the framework's codec)
+					if t.p.Struct {
+						continue
+					}
+					kind = "json"
+					rb := replyBodies[r.Intn(len(replyBodies))]
+					class = fmt.Sprintf("%q", rb)
+					route = routes["raw-reply"]
+					body = []byte(rb)
+					result = new(tok.Arg)
+					predictedDecodable = json.Valid([]byte(rb)) && json.Unmarshal([]byte(rb), new(tok.Arg)) == nil
 				case "status":
 					class = textClasses[r.Intn(len(textClasses))]
 					if t.p.HTTP && (class == "bytes" || class == "ctrl") {
@@ -430,7 +453,7 @@ func main() {
 						route = routes[kind]
 						result = tok.NewResult(kind)
 					}
-					body = []byte(map[string]string{"json": `{"tok": [broken`, "form": "%zz=%%%", "xml": "<Arg><tok>unterminated"}[kind])
+					body = []byte(map[string]string{"json": []string{`{"tok": [broken`, `{"tok":"a"}}`, `{"tok":"a"} x`, `{"tok":"a"}{"tok":"b"}`}[r.Intn(4)], "form": "%zz=%%%", "xml": "<Arg><tok>unterminated"}[kind])
 					exp = &protos.Triple{Code: erpc.CodeBadMessage, Msg: erpc.CodeText(erpc.CodeBadMessage)}
 					expCodeMsgOnly = true
 				case "veto":
@@ -446,7 +469,11 @@ func main() {
 				if body == nil {
 					body = tok.Build(kind, cmd.String(), "")
 				}
-				settings = append(settings, erpc.WithBodyCodec(tok.CodecID(kind)))
+				if mode == "reply-bytes" {
+					settings = append(settings, erpc.WithBodyCodec(codec.ID_PLAIN))
+				} else {
+					settings = append(settings, erpc.WithBodyCodec(tok.CodecID(kind)))
+				}
 				reconnect()
 				sess := link.A
 				if mode == "closed" {
@@ -484,6 +511,12 @@ func main() {
 					} else if rt, _, _ := tok.Decode(result); rt != "R:"+id {
 						fail("ok-wrong-result", fmt.Sprintf("caller OK but result token %q", rt))
 					}
+				case mode == "reply-bytes":
+					if predictedDecodable && !c.StatusOK() {
+						fail("decodable-reported-as-error", fmt.Sprintf("reply body %s is a JSON document for the result type, caller got %+q", class, got))
+					} else if !predictedDecodable && c.StatusOK() {
+						fail("undecodable-reply-reported-ok", fmt.Sprintf("reply body %s is not a JSON document, yet the caller sees OK (result %+v)", class, result))
+					}
 				case mode == "mismatch":
 					if predictedDecodable {
 						if !c.StatusOK() {
@@ -502,6 +535,9 @@ func main() {
 						}
 						fail(sym, fmt.Sprintf("expected %+q got %+q", *exp, got))
 					}
+				}
+				if mode == "bad-body" && atomic.LoadInt32(&o.entered) > 0 {
+					fail("bad-body-handler-ran", "handler invoked although the request body is not decodable")
 				}
 				if mode == "veto" && atomic.LoadInt32(&o.entered) > 0 {
 					fail("veto-handler-ran", "handler invoked although a pre-handler hook vetoed")
